@@ -82,6 +82,44 @@ type intInfo struct {
 	signed bool
 }
 
+// bitwise spells a bit-wise operator on two integer terms of at most 16 bits as a sum
+// over the bit positions (Int encoding: bit i of x is (x div 2^i) mod 2 on the
+// unsigned image of x).  Wider operands are left unsupported.
+func bitwise(op token.Token, x, y string, ii intInfo) string {
+	if ii.bits > 16 {
+		return ""
+	}
+	full := new2pow(ii.bits)
+	ux := "(mod " + x + " " + full + ")"
+	uy := "(mod " + y + " " + full + ")"
+	var terms []string
+	for i := 0; i < ii.bits; i++ {
+		p := new2pow(i)
+		bx := "(= (mod (div " + ux + " " + p + ") 2) 1)"
+		by := "(= (mod (div " + uy + " " + p + ") 2) 1)"
+		var c string
+		switch op {
+		case token.OR:
+			c = "(or " + bx + " " + by + ")"
+		case token.AND:
+			c = "(and " + bx + " " + by + ")"
+		case token.XOR:
+			c = "(xor " + bx + " " + by + ")"
+		case token.AND_NOT:
+			c = "(and " + bx + " (not " + by + "))"
+		default:
+			return ""
+		}
+		terms = append(terms, "(ite "+c+" "+p+" 0)")
+	}
+	sum := "(+ " + strings.Join(terms, " ") + ")"
+	if ii.signed {
+		half := new2pow(ii.bits - 1)
+		return "(ite (>= " + sum + " " + half + ") (- " + sum + " " + full + ") " + sum + ")"
+	}
+	return sum
+}
+
 func infoOf(bk types.BasicKind) intInfo {
 	switch bk {
 	case types.Int, types.Int64, types.UntypedInt:
@@ -289,6 +327,15 @@ func symBinop(op token.Token, t types.Type, x, y value) value {
 			return mkBool(ex, bin("="))
 		case token.NEQ:
 			return mkBool(ex, "(not "+bin("=")+")")
+		case token.OR, token.XOR, token.AND, token.AND_NOT:
+			if op == token.AND {
+				break // masks first (below); the general case falls through to the bit-wise form
+			}
+			if t := bitwise(op, a.e, b.e, ii); t != "" {
+				return res(t)
+			}
+		}
+		switch op {
 		case token.AND:
 			// x & (2^k-1) = x mod 2^k (the mathematical, non-negative remainder) for every
 			// two's-complement x, signed or not, as long as the mask fits the positive range
@@ -304,6 +351,9 @@ func symBinop(op token.Token, t types.Type, x, y value) value {
 						}
 					}
 				}
+			}
+			if t := bitwise(op, a.e, b.e, ii); t != "" {
+				return res(t)
 			}
 		}
 	case kF64:
